@@ -5,7 +5,8 @@ open Gossamer Gossamer.C31
 /- lines (see harness/C31/*.go):
    `const MaxBlocksInResponse`
    `plan <a> <b> <fields>`                        → `<k> <start>:<max>,…`
-   `srv <tree> <fin> <from> <dir> <max> <mask>`   → `ok <n> <id>/<present>,…` | error class -/
+   `srv <tree> <fin> <from> <dir> <max> <mask>`   → `ok <n> <id>/<present>,…` | error class
+   `seq <tree> <fin>|<peer> <from> <dir> <max> <mask>;…` → per request `same` | short response -/
 
 def joinWith (sep : String) : List String → String
   | [] => ""
@@ -29,6 +30,15 @@ def showErr : Err → String
 def showBlocks (bs : List BData) : String :=
   if bs.isEmpty then "ok 0"
   else s!"ok {bs.length} " ++ joinWith "," (bs.map (fun b => s!"{b.id}/{b.present}"))
+
+def showEntry (b : BData) : String := s!"{b.id}/{b.present}"
+
+/-- first and last entry only -/
+def showShort : Except Err (List BData) → String
+  | .error e => showErr e
+  | .ok [] => "ok 0"
+  | .ok [b] => s!"ok 1 {showEntry b}"
+  | .ok (b :: bs) => s!"ok {bs.length + 1} {showEntry b}..{showEntry (bs.getLast?.getD b)}"
 
 def showResp : Except Err (List BData) → String
   | .ok bs => showBlocks bs
@@ -77,16 +87,61 @@ def specGenesis (t : Tree) (r : Request) : Except Err (List BData) :=
   else
     descByNumber t r.mask (min max 1) 0
 
-/-- the harness finalises block `fin` of the best chain only when that prunes nothing: `fin` is at
-    most the best number and every number `≤ fin` is carried by exactly one block -/
-def finOk (t : Tree) (fin : Nat) : Bool :=
-  if fin = 0 then true
-  else if fin > maxNum t then false
-  else
-    let cnt := t.foldl (fun (c : Array Nat) b => c.modify b.num (· + 1)) (Array.replicate (maxNum t + 1) 0)
-    (List.range (fin + 1)).all (fun k => cnt[k]? = some 1)
+/-- the block state of a case: the tree, checked like the harness does, then finalised -/
+def buildState (st : String) (fin : Nat) : Except String Tree :=
+  match parseTree st with
+  | none => .error "bad-op"
+  | some none => .error "bad-tree"
+  | some (some t) =>
+    if countNum t (maxNum t) ≠ 1 then .error "bad-tree"
+    else if fin > maxNum t then .error "bad-tree"
+    else .ok (if fin = 0 then t else finalise t fin)
+
+def parseReq : List String → Option Request
+  | [sfrom, sdir, smax, smask] =>
+    match smask.toNat?, parseFrom sfrom, parseDir sdir, parseMax smax with
+    | some mask, some fr, some dir, some mx => if mask ≥ 256 then none else some ⟨fr, dir, mx, mask⟩
+    | _, _, _, _ => none
+  | _ => none
+
+def parseOps : List String → Option (List (Nat × Request))
+  | [] => some []
+  | o :: rest =>
+    match words o with
+    | sp :: rq =>
+      match sp.toNat?, parseReq rq, parseOps rest with
+      | some p, some r, some tl => if p > 9 then none else some ((p, r) :: tl)
+      | _, _, _ => none
+    | [] => none
+
+def runOps (t : Tree) : Cache → List (Nat × Request) → List String
+  | _, [] => []
+  | c, (p, r) :: rest =>
+    let (c', o) := request t c p r
+    (match o with
+      | .refused => "same"
+      | .answered x => showShort x) :: runOps t c' rest
+
+def stepSeq (line : String) : String :=
+  match line.splitOn "|" with
+  | [hdr, body] =>
+    match words hdr with
+    | ["seq", st, sfin] =>
+      match sfin.toNat? with
+      | none => "bad-op"
+      | some fin =>
+        let parts := if (words body).isEmpty then [] else body.splitOn ";"
+        match parseOps parts with
+        | none => "bad-op"
+        | some ops =>
+          match buildState st fin with
+          | .error e => e
+          | .ok t => if ops.isEmpty then "-" else joinWith ";" (runOps t [] ops)
+    | _ => "bad-op"
+  | _ => "bad-op"
 
 def step (line : String) : String :=
+  if line.startsWith "seq " then stepSeq line else
   match words line with
   | ["const", "MaxBlocksInResponse"] => toString maxBlocks
   | ["plan", sa, sb, sf] =>
@@ -99,27 +154,21 @@ def step (line : String) : String :=
         -- the whole range 0 … 2^64-1: the block count wraps to 0 and nothing is planned
         if a = 0 ∧ b = W - 1 then out ++ "\tspec=planned\tkf=plan-full-uint-range" else out
     | _, _, _ => "bad-op"
+  | ["const", "maxNumberOfSameRequestPerPeer"] => toString maxSame
   | ["srv", st, sfin, sfrom, sdir, smax, smask] =>
-    match sfin.toNat?, smask.toNat?, parseFrom sfrom, parseDir sdir, parseMax smax with
-    | some fin, some mask, some fr, some dir, some mx =>
-      if mask ≥ 256 then "bad-op"
-      else
-        match parseTree st with
-        | none => "bad-op"
-        | some none => "bad-tree"
-        | some (some t) =>
-          if countNum t (maxNum t) ≠ 1 then "bad-tree"
-          else if !finOk t fin then "bad-tree"
-          else
-            let r : Request := ⟨fr, dir, mx, mask⟩
-            let out := showResp (serve t r)
-            match fr with
-            | .num 0 =>
-              if mask ≠ 0 ∧ dir ≤ 1 then
-                out ++ "\tspec=" ++ showResp (specGenesis t r) ++ "\tkf=genesis-by-number"
-              else out
-            | _ => out
-    | _, _, _, _, _ => "bad-op"
+    match sfin.toNat?, parseReq [sfrom, sdir, smax, smask] with
+    | some fin, some r =>
+      match buildState st fin with
+      | .error e => e
+      | .ok t =>
+        let out := showResp (serve t r)
+        match r.from_ with
+        | .num 0 =>
+          if r.mask ≠ 0 ∧ r.dir ≤ 1 then
+            out ++ "\tspec=" ++ showResp (specGenesis t r) ++ "\tkf=genesis-by-number"
+          else out
+        | _ => out
+    | _, _ => "bad-op"
   | _ => "bad-op"
 
 def main : IO Unit := runDriver step
